@@ -602,3 +602,144 @@ Proof.
   - intros x Hx. rewrite !mem_dedup'. apply Hn. exact Hx.
   - intros p Hp'. rewrite !prefixes_dedup. apply Hp. exact Hp'.
 Qed.
+
+(* ================================================================ resolve finds what the walk yields *)
+Lemma obj_get_In {A} k (o : list (str * A)) v : obj_get k o = Some v -> In (k, v) o.
+Proof.
+  induction o as [|[k' v'] o IH]; [discriminate|]. cbn [obj_get].
+  destruct (str_eqb k k') eqn:E.
+  - intros H. injection H as <-. apply str_eqb_eq in E. subst k'. left. reflexivity.
+  - intros H. right. apply IH. exact H.
+Qed.
+
+Lemma walk_list_in f parents l n d e :
+  In (n, d) l -> In e (f parents n d) -> In e (walk_list f parents l).
+Proof.
+  induction l as [|[n' d'] l IH]; intros Hin He; [destruct Hin|].
+  cbn [walk_list]. apply in_or_app. destruct Hin as [Heq|Hin].
+  - inversion Heq; subst. left. exact He.
+  - right. apply IH; assumption.
+Qed.
+
+Lemma walk_def_head sub parents n d : In (n, d, parents) (walk_def sub parents n d).
+Proof. destruct d. left. reflexivity. Qed.
+
+Lemma walk_def_subs parents n d sn sd :
+  In (sn, sd) (fd_fields d) -> In (sn, merge_def d sd, parents ++ [(n, d)]) (walk_def true parents n d).
+Proof.
+  destruct d as [ty idx flds props]. cbn [fd_fields]. intros Hin. cbn [walk_def]. right.
+  apply in_or_app. left. apply in_map_iff. exists (sn, sd). split; [reflexivity|exact Hin].
+Qed.
+
+Lemma walk_def_container sub parents n ty idx props :
+  walk_def sub parents n (FDef ty idx [] props) =
+  (n, FDef ty idx [] props, parents) ::
+  walk_list (walk_def sub) (parents ++ [(n, FDef ty idx [] props)]) props.
+Proof. cbn [walk_def]. destruct sub; reflexivity. Qed.
+
+(* what wf_def says about a field with properties *)
+Lemma wf_def_props_go (l : list (str * fdef)) :
+  (fix go (l : list (str * fdef)) : bool :=
+     match l with
+     | [] => true
+     | (n, c) :: l' => nonempty_name n && nodot n && wf_def c && go l'
+     end) l = true ->
+  forall n c, In (n, c) l -> wf_def c = true.
+Proof.
+  induction l as [|[n' c'] l IH]; intros H n c Hin; [destruct Hin|].
+  apply andb_true_iff in H. destruct H as [H Hl]. apply andb_true_iff in H. destruct H as [_ Hc].
+  destruct Hin as [Heq|Hin]; [inversion Heq; subst; exact Hc|]. eapply IH; eassumption.
+Qed.
+
+Lemma wf_def_container d :
+  wf_def d = true -> fd_props d <> [] ->
+  fd_fields d = [] /\ forall n c, In (n, c) (fd_props d) -> wf_def c = true.
+Proof.
+  destruct d as [ty idx flds props]. cbn [fd_props fd_fields]. intros H Hne.
+  destruct props as [|x props]; [congruence|]. cbn [wf_def] in H.
+  repeat (apply andb_true_iff in H; destruct H as [H ?]).
+  split.
+  - destruct flds; [reflexivity|discriminate H].
+  - apply wf_def_props_go. assumption.
+Qed.
+
+Definition last_name (comps : list str) : str := last comps [].
+
+(* the field found by `resolve` is yielded by the walk (with sub-fields), under its own definition — or,
+   for a sub-field, under the holder's definition overlaid by its own — and with the same ancestors *)
+Lemma resolve_walk : forall comps props anc d anc',
+  (forall n c, In (n, c) props -> wf_def c = true) ->
+  resolve props anc comps = Some (d, anc') ->
+  map fst anc' ++ [last_name comps] = map fst anc ++ comps /\
+  (In (last_name comps, d, anc') (walk_properties true anc props) \/
+   exists anc0 c p, anc' = anc0 ++ [(c, p)] /\ fd_props p = [] /\
+                    In (last_name comps, merge_def p d, anc') (walk_properties true anc props)).
+Proof.
+  induction comps as [|c cs IH]; intros props anc d anc' Hwf H; [discriminate H|].
+  cbn [resolve] in H. destruct (obj_get c props) as [dd|] eqn:Eg; [|discriminate H].
+  apply obj_get_In in Eg. pose proof (Hwf _ _ Eg) as Hdd.
+  destruct cs as [|s cs'].
+  - injection H as <- <-. split; [reflexivity|]. left.
+    unfold walk_properties. eapply walk_list_in; [exact Eg|apply walk_def_head].
+  - destruct (fd_props dd) as [|pp pps] eqn:Ep.
+    + destruct cs' as [|? ?]; [|discriminate H].
+      destruct (obj_get s (fd_fields dd)) as [sd|] eqn:Es; [|discriminate H].
+      injection H as <- <-. apply obj_get_In in Es. split.
+      * rewrite map_app. cbn [map fst]. rewrite <- app_assoc. reflexivity.
+      * right. exists anc, c, dd. split; [reflexivity|]. split; [exact Ep|].
+        unfold walk_properties. eapply walk_list_in; [exact Eg|]. apply walk_def_subs. exact Es.
+    + assert (Hne : fd_props dd <> []) by (rewrite Ep; discriminate).
+      destruct (wf_def_container dd Hdd Hne) as [Hf Hsub].
+      rewrite <- Ep in H. apply (IH _ _ _ _ Hsub) in H. destruct H as [Hn Hin].
+      assert (Hl : last_name (c :: s :: cs') = last_name (s :: cs')) by reflexivity.
+      rewrite Hl. split.
+      * rewrite Hn. rewrite map_app. cbn [map fst]. rewrite <- app_assoc. reflexivity.
+      * assert (Hincl : forall e, In e (walk_properties true (anc ++ [(c, dd)]) (fd_props dd)) ->
+                                  In e (walk_properties true anc props)).
+        { intros e He. unfold walk_properties. eapply walk_list_in; [exact Eg|].
+          destruct dd as [ty idx flds props']. cbn [fd_fields fd_props] in *. subst flds.
+          rewrite walk_def_container. right. exact He. }
+        destruct Hin as [Hin|[anc0 [c0 [p [Ha [Hp Hin]]]]]].
+        -- left. apply Hincl. exact Hin.
+        -- right. exists anc0, c0, p. split; [exact Ha|]. split; [exact Hp|]. apply Hincl. exact Hin.
+Qed.
+
+Lemma wf_schema_props s props :
+  wf_schema s = true -> In props (doc_props s) -> forall n c, In (n, c) props -> wf_def c = true.
+Proof.
+  unfold wf_schema. rewrite forallb_forall. intros H Hin. specialize (H _ Hin). unfold wf_props in H.
+  destruct props as [|x props]; [intros n c []|].
+  apply (wf_def_container _ H). cbn [fd_props]. discriminate.
+Qed.
+
+Lemma leaf_not_container d : is_leaf_def d = true -> is_container_type d = false.
+Proof.
+  unfold is_leaf_def. intros H. apply andb_true_iff in H. destruct H as [H _].
+  apply andb_true_iff in H. destruct H as [_ H]. apply negb_true_iff in H. exact H.
+Qed.
+
+Theorem typing_resolved s comps d anc x t j :
+  wf_schema s = true -> coherent s = true -> mapped_leaf s comps d anc -> subfield_ok anc d = true ->
+  forallb nodot comps = true -> has_wildcard x = false -> spelling comps x t ->
+  build (options s) t = ROk j ->
+  exists p, j = wrap_nested p (clause (dotted comps) (negb (analysed_text d)) x).
+Proof.
+  intros Hwf Hc [props [Hin [Hr Hl]]] Hg Hd Hx Hsp Hb.
+  assert (Hne : comps <> []) by (destruct comps; [discriminate Hr|discriminate]).
+  rewrite (build_options s _ x t Hne Hd Hx Hsp) in Hb.
+  destruct (refused s comps); [discriminate Hb|]. injection Hb as <-.
+  exists (nested_anchor s comps). f_equal. f_equal.
+  destruct (resolve_walk _ _ _ _ _ (wf_schema_props _ _ Hwf Hin) Hr) as [Hn Hw]. cbn [map app] in Hn.
+  assert (Hiter : forall e, In e (walk_properties true [] props) -> In e (iter_fields s true)).
+  { intros e He. unfold iter_fields. apply in_flat_map. exists props. split; assumption. }
+  destruct Hw as [Hw|[anc0 [c [p [Ha [Hp Hw]]]]]].
+  - pose proof (not_analyzed_iff s _ Hc (Hiter _ Hw)) as Hna.
+    unfold e_dot, e_name, e_parents, e_def, dot_name in Hna. cbn [fst snd] in Hna.
+    rewrite Hn in Hna. rewrite Hna. apply leaf_not_analyzed. apply leaf_not_container. exact Hl.
+  - pose proof (not_analyzed_iff s _ Hc (Hiter _ Hw)) as Hna.
+    unfold e_dot, e_name, e_parents, e_def, dot_name in Hna. cbn [fst snd] in Hna.
+    rewrite Hn in Hna. rewrite Hna.
+    assert (Hg' : sub_self_described p d = true).
+    { unfold subfield_ok, subfield_holder in Hg. rewrite Ha, rev_unit, Hp in Hg. exact Hg. }
+    rewrite (merge_not_analyzed _ _ Hg'). apply leaf_not_analyzed. apply leaf_not_container. exact Hl.
+Qed.
